@@ -122,12 +122,9 @@ fn c15_run_one(batch_seed: u64, run_index: u64, out: &mut WorkerOut) -> bool {
     };
     out.runs += 1;
     let r = &outcome.report;
-    if r.watchdog {
-        // a simulated thread blocked on a primitive the simulator does not own (a std lock held
-        // by a parked thread): this engine cannot decide the run; stop this worker, the parent
-        // reports it and the Miri engine (which owns std locks) decides
-        out.stats.inc("inconclusive.blocked_outside_simulator");
-        return false;
+    out.stats.add("sched.forced_switches_from_blocked_threads", r.stalls);
+    if r.stalls > 0 {
+        out.stats.inc("simulations_with_library_level_blocking");
     }
     out.stats.inc("simulations");
     out.stats.add("sched.steps", r.steps);
@@ -189,11 +186,16 @@ fn c15_run_one(batch_seed: u64, run_index: u64, out: &mut WorkerOut) -> bool {
     d.u64(r.steps);
     if let Some(f) = &outcome.finding {
         d.str(&f.class);
-        out.violations.push(c15_replay_body(&w, f, &r.choices, &strategy, enabled, batch_seed, run_index, seed));
+        let mut body = c15_replay_body(&w, f, &r.choices, &strategy, enabled, batch_seed, run_index, seed);
+        if r.stalls > 0 {
+            body.set("library_level_blocking", Json::Bool(true));
+        }
+        out.violations.push(body);
     }
     out.absorb_digest(run_index, d.finish());
-    // a worker stops early once it has enough violations to report
-    out.violations.len() < 5
+    // a worker stops early once it has enough violations to report; after a deadlock the stuck
+    // threads are leaked, so this process runs no further simulation
+    out.violations.len() < 5 && !r.deadlock
 }
 
 fn worker_loop(args: &Args, mut one: impl FnMut(u64, u64, &mut WorkerOut) -> bool) {
@@ -387,6 +389,8 @@ fn c15_tier_runs(tier: &str) -> u64 {
 }
 
 fn c15_check(tier: &str, exe: &Path, args: &Args) -> i32 {
+    // the parent minimises in-process: user-function panics of the workload must stay quiet
+    verifsim::env::install_quiet_panic_hook();
     let batch_seed = batch_seed_from_env();
     let runs = c15_tier_runs(tier);
     let workers = (default_workers() / 3).max(1);
@@ -443,7 +447,8 @@ fn c15_check(tier: &str, exe: &Path, args: &Args) -> i32 {
             _ => "not run by this invocation",
         }))
         .with("miri_engine", miri.unwrap_or_else(|| Json::obj().with("ran", Json::Bool(false))))
-        .with("workers_stopped_blocked_outside_simulator", Json::u(s.get("inconclusive.blocked_outside_simulator")))
+        .with("simulations_with_library_level_blocking", Json::u(s.get("simulations_with_library_level_blocking")))
+        .with("forced_switches_from_blocked_threads", Json::u(s.get("sched.forced_switches_from_blocked_threads")))
         .with("probes_stuck_at_zero", Json::arr_of_str(stuck.iter().cloned()))
         .with("event_log_digest", Json::s(format!("{:016x}", res.out.digest)))
         .with(
@@ -474,11 +479,12 @@ fn c15_check(tier: &str, exe: &Path, args: &Args) -> i32 {
             .unwrap_or_else(|e| harness_error(&format!("cannot write deferred evidence: {}", e))),
         None => evidence.write(),
     }
-    let blocked = s.get("inconclusive.blocked_outside_simulator");
+    let blocked = s.get("simulations_with_library_level_blocking");
     if blocked > 0 {
         println!(
-            "note: {} worker(s) stopped because a simulated thread blocked on a primitive the simulator does not own (a std lock held across a yield point); the hook engine is inconclusive for those runs, the Miri engine decides",
-            blocked
+            "note: in {} simulation(s) a simulated thread blocked on a lock or condvar inside the library; the scheduler switched away from it {} times (forced switches)",
+            blocked,
+            s.get("sched.forced_switches_from_blocked_threads")
         );
     }
     println!(
